@@ -85,7 +85,11 @@ class Srv:
     """A real server process owned by one scenario."""
 
     def __init__(self, logdir=None, name='srv'):
+        import uuid
         from pyworkers.remote_server import spawn_server
+        # everything that descends from this server inherits VF_SCN=<tag> (spawn = exec): it can be found and
+        # killed at the end even after it has been re-parented
+        self.tag = 'vf-' + uuid.uuid4().hex
         self.errlog = None
         if logdir:
             self.errlog = os.path.join(logdir, '%s-%d-%d.err' % (name, os.getpid(), time.time_ns()))
@@ -93,9 +97,11 @@ class Srv:
             f = open(self.errlog, 'ab', buffering=0)
             os.dup2(f.fileno(), 2)
             f.close()
+        os.environ['VF_SCN'] = self.tag
         try:
             res = L.bounded(lambda: spawn_server(('127.0.0.1', 0)), 20)
         finally:
+            os.environ.pop('VF_SCN', None)
             if logdir:
                 os.dup2(self._saved, 2)
                 os.close(self._saved)
@@ -135,6 +141,10 @@ class Srv:
     def destroy(self):
         self.note_descendants()
         left = L.reap_tree(self.pid, self.seen)
+        stray = [p for p in L.tagged_pids(self.tag)]
+        if stray:
+            L.kill_pids(stray)
+            left = left + L.await_dead(stray, 2.0)
         return left
 
 
@@ -487,12 +497,8 @@ def scenario_c12(scn):
     from pyworkers.persistent_remote import PersistentRemoteWorker
     from pyworkers.remote_context import RemoteContext
     L.setup_env()
-    tagv = 'vf12-' + uuid.uuid4().hex
-    os.environ['VF_SCN'] = tagv
-    try:
-        srv = Srv(scn.get('logdir'))
-    finally:
-        os.environ.pop('VF_SCN', None)
+    srv = Srv(scn.get('logdir'))
+    tagv = srv.tag
     kids = scn['kids']
     objs = [None] * len(kids)
     markers = []
